@@ -22,7 +22,8 @@ Check(r) ==
                   [role |-> r.role, sent |-> Len(r.sent), delivered |-> Len(r.delivered), firstDifference |-> FirstDiff(exp, r.delivered),
                    chunks |-> r.chunks]))
      /\ (~r.overlap \/ Rej(r, "two messages of one connection were dispatched at the same time", [role |-> r.role]))
-     /\ (r.written = r.handoff
+     \* the property speaks about the outbound byte stream, not about how many Write calls carry it
+     /\ (Concat(r.written) = Concat(r.handoff)
            \/ Rej(r, "outbound stream is not the handed-off messages, whole and in hand-off order",
                   [role |-> r.role, handoff |-> Len(r.handoff), writes |-> Len(r.written), firstDifference |-> FirstDiff(r.handoff, r.written),
                    sameBytes |-> Concat(r.written) = Concat(r.handoff)]))
